@@ -249,6 +249,85 @@ proof fn theorem_layer_roundtrip(l: FriProofLayer, rest: Seq<u8>)
     lemma_v32(l.paths@, rest);
 }
 
+// a FRI proof: layer count (one byte), the layers, the remainder behind a 16-bit prefix, log2 of the number of partitions
+pub struct FriProof { pub layers: Vec<FriProofLayer>, pub remainder: Vec<u8>, pub num_partitions: u8 }
+pub open spec fn lview(l: FriProofLayer) -> (Seq<u8>, Seq<u8>) { (l.values@, l.paths@) }
+pub open spec fn enc_layers(v: Seq<FriProofLayer>) -> Seq<u8>
+    decreases v.len()
+{
+    if v.len() == 0 { Seq::<u8>::empty() } else { enc_layers(v.drop_last()) + enc_layer(v.last()) }
+}
+pub open spec fn dec_layers(s: Seq<u8>, n: nat) -> Option<(Seq<(Seq<u8>, Seq<u8>)>, Seq<u8>)>
+    decreases n
+{
+    if n == 0 { Some((Seq::<(Seq<u8>, Seq<u8>)>::empty(), s)) } else {
+        match dec_layer(s) {
+            None => None,
+            Some((x, r1)) => match dec_layers(r1, (n - 1) as nat) { None => None, Some((xs, r2)) => Some((seq![x] + xs, r2)) },
+        }
+    }
+}
+impl Reader {
+    // contract of ByteReader::read_many::<FriProofLayer> (read_many is proved from its body in unit serdev; the element
+    // decoder is FriProofLayer::read_from above)
+    #[verifier::external_body]
+    pub fn read_many(&mut self, n: usize) -> (r: Result<Vec<FriProofLayer>, DeserializationError>)
+        ensures
+            r is Ok <==> dec_layers(old(self).rem@, n as nat) is Some,
+            r is Ok ==> r->Ok_0.len() == n && dec_layers(old(self).rem@, n as nat) == Some((r->Ok_0@.map_values(|l: FriProofLayer| lview(l)), final(self).rem@)),
+    { unimplemented!() }
+}
+pub open spec fn dec_fri(s: Seq<u8>) -> Option<((Seq<(Seq<u8>, Seq<u8>)>, Seq<u8>, u8), Seq<u8>)> {
+    match dec_u8(s) { None => None, Some((n, r1)) =>
+    match dec_layers(r1, n as nat) { None => None, Some((ls, r2)) =>
+    match dec_v16(r2) { None => None, Some((rem, r3)) =>
+    match dec_u8(r3) { None => None, Some((p, r4)) => if p >= 64 { None } else { Some(((ls, rem, p), r4)) } }}}}
+}
+impl FriProof {
+    //@@ source fri/src/proof.rs
+    //@@ extract within="impl Serializable for FriProof" anchor="fn write_into<W: ByteWriter>(&self, target: &mut W)"
+    //@@ itername 1 it
+    //@@ loop 1
+    //@@|            invariant
+    //@@|                0 <= it.index@ <= self.layers@.len(),
+    //@@|                forall|t: int| 0 <= t < self.layers@.len() ==> (#[trigger] self.layers@[t]).values.len() <= u32::MAX && self.layers@[t].paths.len() <= u32::MAX,
+    //@@|                target.out@ == old(target).out@ + enc_u8(self.layers.len() as u8) + enc_layers(self.layers@.take(it.index@)),
+    //@@ loopstart 1
+    //@@|            proof { assert(*layer == self.layers@[it.index@]); }
+    //@@ loopend 1
+    //@@|            proof {
+    //@@|                let k = it.index@;
+    //@@|                assert(self.layers@.take(k + 1).drop_last() =~= self.layers@.take(k));
+    //@@|                assert(self.layers@.take(k + 1).last() == self.layers@[k]);
+    //@@|                assert(target.out@ =~= old(target).out@ + enc_u8(self.layers.len() as u8) + enc_layers(self.layers@.take(k + 1)));
+    //@@|            }
+    pub fn write_into(&self, target: &mut Writer)
+        requires
+            self.layers.len() <= u8::MAX, self.remainder.len() <= u16::MAX,
+            forall|t: int| 0 <= t < self.layers@.len() ==> (#[trigger] self.layers@[t]).values.len() <= u32::MAX && self.layers@[t].paths.len() <= u32::MAX,
+        ensures
+            final(target).out@ == old(target).out@ + enc_u8(self.layers.len() as u8) + enc_layers(self.layers@)
+                + enc_u16(self.remainder.len() as u16) + self.remainder@ + enc_u8(self.num_partitions),
+    {
+        proof {
+            assert(self.layers@.take(0) =~= Seq::<FriProofLayer>::empty());
+            assert(old(target).out@ + enc_u8(self.layers.len() as u8) + Seq::<u8>::empty() =~= old(target).out@ + enc_u8(self.layers.len() as u8));
+        }
+        /*@@body*/
+        proof { assert(self.layers@.take(self.layers@.len() as int) =~= self.layers@); }
+    }
+
+    //@@ extract within="impl Deserializable for FriProof" anchor="fn read_from<R: ByteReader>(source: &mut R) -> Result<Self, DeserializationError>"
+    //@@ rewrite-re "format!\([^;]*\)\)\);" => "err_text()));"
+    pub fn read_from(source: &mut Reader) -> (r: Result<FriProof, DeserializationError>)
+        ensures
+            r is Ok <==> dec_fri(old(source).rem@) is Some,
+            r is Ok ==> dec_fri(old(source).rem@) == Some(((r->Ok_0.layers@.map_values(|l: FriProofLayer| lview(l)), r->Ok_0.remainder@, r->Ok_0.num_partitions), final(source).rem@)),
+    {
+        /*@@body*/
+    }
+}
+
 proof fn containerv_canary_must_fail(b: Seq<u8>, rest: Seq<u8>)
     requires prefix_rt()
     ensures dec_v16(enc_u16(b.len() as u16) + b + rest) == Some((b, rest))
